@@ -563,6 +563,7 @@ package parser
 //@   assigns p.pos
 
 //@ func parser.(*parser).sortTerm
+//@   keywords asc desc nulls first last
 //@   use perr exprwf exprok pwf yield
 //@   hide expr
 //@   requires p != nil && pOK(p.pos, len(p.tokens)) && toksIn(p.source, p.tokens)
@@ -706,6 +707,7 @@ package parser
 //@   assigns p.pos
 
 //@ func parser.(*parser).renderOperator
+//@   keywords with
 //@   use perr exprwf exprok pwf yield
 //@   hide expr
 //@   requires p != nil && pOK(p.pos, len(p.tokens)) && toksIn(p.source, p.tokens) && tokIn(p.source, pipe) && tokIn(p.source, keyword)
@@ -732,6 +734,7 @@ package parser
 //@   assigns p.pos
 
 //@ func parser.(*parser).joinOperator
+//@   keywords kind on
 //@   use perr exprwf exprok pwf yield
 //@   hide expr
 //@   requires p != nil && pOK(p.pos, len(p.tokens)) && toksIn(p.source, p.tokens) && tokIn(p.source, pipe) && tokIn(p.source, keyword)
@@ -743,6 +746,8 @@ package parser
 //@   decreases remTok(p.pos, len(p.tokens)), 8
 
 //@ func parser.(*parser).tabularExpr
+//@   keywords count where filter sort order take limit top project extend summarize join as render
+//@   synonyms where=filter sort=order take=limit
 //@   use perr exprwf exprok pwf yield
 //@   hide expr
 //@   requires p != nil && pOK(p.pos, len(p.tokens)) && toksIn(p.source, p.tokens)
@@ -760,6 +765,7 @@ package parser
 //@   decreases len(p.tokens) + 1 - p.pos
 
 //@ func parser.(*parser).letStatement
+//@   keywords let
 //@   use perr exprwf exprok pwf yield
 //@   hide expr
 //@   requires p != nil && pOK(p.pos, len(p.tokens)) && toksIn(p.source, p.tokens)
